@@ -245,8 +245,8 @@ def run_lines(binary, lines, timeout=1200, shards=NPROC, env=None, memlimit_kb=N
     return [byid[c.split(" ", 2)[1]] for c in lines]
 
 
-def gen_cases(binary, stream, seed, n):
-    p = sh([binary, "gen", stream, str(seed), str(n)], timeout=600)
+def gen_cases(binary, stream, seed, n, env=None):
+    p = sh([binary, "gen", stream, str(seed), str(n)], timeout=600, env=env)
     return [l for l in p.stdout.split("\n") if l.strip()]
 
 
